@@ -3,6 +3,7 @@
 set -e
 cd "$(dirname "$0")"
 export CARGO_NET_OFFLINE=true
+mkdir -p ocaml/gen evidence replays .work
 [ -x shim/build.sh ] && (cd shim && ./build.sh)
 [ -x harness/build.sh ] && (cd harness && ./build.sh)
 [ -f coq/_CoqProject ] && (cd coq && coq_makefile -f _CoqProject -o Makefile >/dev/null && timeout 3000 make -j16 >/dev/null)
